@@ -717,7 +717,7 @@ fn finish(
         let j = json!({
             "property": p.id, "tier": tier.name(), "class": class, "leg": v.leg, "case": v.case,
             "detail": v.detail,
-            "other_cases_same_class": vs.iter().skip(1).take(5).map(|v| v.case.clone()).collect::<Vec<_>>(),
+            "other_cases_same_class": vs.iter().skip(1).take(80).map(|v| v.case.clone()).collect::<Vec<_>>(),
             "profile": "release, opt-level=2, debug-assertions=on, overflow-checks=on",
             "replay": format!("./check {} --replay {}", p.id, path.display()),
         });
